@@ -219,6 +219,37 @@ def run(ck):
                 want_keys = ["m1", "m2"] if cls == "MetricEvaluator" else ["SigmaZ", "SigmaX"]
                 ck.check(keys == want_keys, "C17.R2", cls + ":one value per tracked name", m.site(), "recorded names %s, expected %s" % (keys, want_keys))
                 v = vals.obj.items[name]
+                if cls == "MetricEvaluator":
+                    # "agrees with the values computed at those epochs": what is recorded under a name is what that name's metric
+                    # returned - the object itself or a conversion that keeps the value (float(), .item(), a float64 tensor); a
+                    # detour through a float32 tensor rounds a python float (which is what the library's own metrics return)
+                    for nm_, fn_ in (("m1", "fn1"), ("m2", "fn2")):
+                        rv = vals.obj.items.get(nm_)
+                        tag_ok = lambda u_: isinstance(u_, VUnknown) and getattr(u_, "callee", None) is not None and getattr(u_.callee, "tag", None) == fn_  # noqa: E731
+                        rt = getattr(rv, "term", None) if not isinstance(rv, VUnknown) else None
+                        at_ = rt.single_atom() if rt is not None and hasattr(rt, "single_atom") else None
+                        while isinstance(at_, T.App) and at_.op in ("float", "npfloat64", "double") and len(at_.args) == 1 and rt == T.P(at_):
+                            rt = at_.args[0] if hasattr(at_.args[0], "single_atom") else T.P(at_.args[0])  # float(x): the same value in double precision
+                            at_ = rt.single_atom()
+                        inst_ = cls + ":the recorded value of %s is what its metric returned" % nm_
+                        if isinstance(at_, T.Sym) and rt == T.P(at_):
+                            nm0 = at_.name
+                            while nm0.startswith("float(") and nm0.endswith(")"):
+                                nm0 = nm0[6:-1]  # float(x): the same value as a python float (double precision)
+                            at_ = T.Sym(nm0) if nm0 != at_.name else at_
+                            rt = T.P(at_)
+                        if tag_ok(rv):
+                            ck.ok("C17.R2", inst_, m.site())
+                        elif isinstance(at_, T.Sym) and (at_.name.startswith("val:ret(%s)" % fn_) or at_.name.startswith("ret(%s)" % fn_)) and rt == T.P(at_):
+                            src_t = getattr(rv, "from_tensor", None)
+                            nar = [n_ for n_ in it.narrowings if src_t is not None and n_[2] in src_t.obj.roots()]
+                            ck.check(not nar, "C17.R2", inst_, nar[0][0] if nar else m.site(),
+                                     "the value recorded for '%s' went through a conversion that does not keep it: %s - past_values, last, get_value, the per-name arrays and the CSV log differ from the "
+                                     "value the metric computed (relative error about 1e-8; early stopping compares these records)" % (nm_, nar[0][1] if nar else ""), key="C17.R2|MetricEvaluator|recorded value narrowed")
+                        elif rt is not None and not any(fn_ in s_ for s_ in rt.syms()) and not isinstance(rv, VUnknown):
+                            ck.violation("C17.R2", inst_, m.site(), "the value recorded for '%s' is %s: it does not depend on what the metric '%s' returned" % (nm_, str(rt)[:120], nm_))
+                        else:
+                            ck.undecided("C17.R2", inst_, m.site(), "the recorded value %r is not traced back to the metric's return value" % (rv,))
                 ok_, ln = const_of(acc["len"])
                 ck.check(ok_ and ln == 2, "C17.R2", cls + ":__len__", c.find_method("__len__").site(), "len() is %s after two evaluations" % (acc["len"],))
                 v0 = vals0.obj.items[name] if isinstance(vals0, VDict) and vals0.obj.items else None
